@@ -4,6 +4,6 @@ CONSTANTS
   Script <- S_live
   MaxJobs = 2
 SPECIFICATION FairSpec
-INVARIANTS AtMostOneBest AckNonNeg Quiescent
+INVARIANTS OptionsInEffectAtGo AtMostOneBest AckNonNeg Quiescent
 PROPERTIES Termination EachGoAnswered
 CHECK_DEADLOCK FALSE
